@@ -17,7 +17,7 @@ import (
 // Op is one stored-data corruption operator (DESIGN §3.1).  Offsets are reduced modulo the
 // current length when applied, so every Op is applicable to every content.
 type Op struct {
-	Kind    string `json:"k"`             // trunc | bitflip | subst | zero | dup | swap | garbage | empty | marker | setu32 | nul | crlf | cutquote | delclose | emptyval | longtok | dupline | delline | nullval | strval
+	Kind    string `json:"k"`             // trunc | bitflip | subst | zero | dup | swap | garbage | empty | marker | setu32 | nul | crlf | cutquote | delclose | emptyval | longtok | cutkey | dupline | delline | nullval | strval
 	Off     int    `json:"off,omitempty"` // byte offset
 	FromEnd bool   `json:"end,omitempty"` // Off counts back from the end
 	Len     int    `json:"len,omitempty"` // block length
@@ -107,6 +107,34 @@ func (o Op) apply(b []byte) []byte {
 		return append(res, out[off:]...)
 	case "crlf":
 		return bytes.ReplaceAll(out, []byte("\n"), []byte("\r\n"))
+	case "cutkey":
+		// wave 8 (C02-w8-2): a name token cut at one of its inner separators - "/@scope/name@1.0:" becomes
+		// "/@scope:" or "/@scope/name:" - the rest of the token up to its terminator is dropped
+		// only inside the first token of a line (a YAML / TOML / JSON key), past its first character
+		var pos []int
+		for i := 0; i < n; i++ {
+			if i > 0 && out[i-1] != '\n' {
+				continue
+			}
+			j := i
+			for j < n && strings.IndexByte(" \t-\"'", out[j]) >= 0 {
+				j++
+			}
+			for k := j + 1; k < n && strings.IndexByte(":\"', \t\r\n=", out[k]) < 0; k++ {
+				if (out[k] == '/' || out[k] == '@') && k > j+1 {
+					pos = append(pos, k)
+				}
+			}
+		}
+		if len(pos) == 0 {
+			return out
+		}
+		at := pos[o.Off%len(pos)]
+		end := at
+		for end < n && strings.IndexByte(":\"', \t\r\n=", out[end]) < 0 {
+			end++
+		}
+		return append(out[:at:at], out[end:]...)
 	case "cutquote", "delclose", "emptyval", "longtok":
 		// text-aware: Off selects the n-th occurrence of a character class
 		class := map[string]string{"cutquote": "\"'`", "delclose": "]})>\"'", "emptyval": "=:", "longtok": "=:, \t\"[{("}[o.Kind]
